@@ -535,6 +535,118 @@ static void client_run(FILE *f, const char *bytes, size_t n, jval *cuts, jval *r
 	fclose(rclog); free(rcbuf); rclog = NULL;
 }
 
+/* ---- client fault scripts (C27): every request completes exactly once, whatever the network does.
+ * {"mode":"clientfault","reqs":["GET",..],"retries":n,"errcb":0|1,"timeout_ms":80,"deadport":0|1,
+ *  "conns":[{"bytes":"..","at":k,"fault":"none|eof|rst|stall","close_after":0|1},..],  k-th accepted connection; later ones are reset
+ *  "cancel":{"i":idx,"when":"start|mid"}}
+ * output {"ev":[["make",i,rc],["cancel",i],["done",i,ok],["err",i,code],...,["end"]],"hang":0|1} */
+static FILE *evlog; static int nev;
+static struct evhttp_request *freq[8]; static int fdone[8], fcancelled[8], f_n, f_ncancel;
+static void ev_put(const char *e, int i, int x)
+{
+	fprintf(evlog, "%s[\"%s\",%d,%d]", nev++ ? "," : "", e, i, x);
+}
+static void f_done_cb(struct evhttp_request *req, void *arg)
+{
+	int i = (int)(intptr_t)arg;
+	fdone[i]++; ncb++;
+	ev_put("done", i, req && evhttp_request_get_response_code(req) != 0);
+}
+static void f_err_cb(enum evhttp_request_error err, void *arg)
+{
+	ev_put("err", (int)(intptr_t)arg, (int)err);
+}
+static void f_cancel(int i)
+{
+	if (i < 0 || i >= f_n || fdone[i] || fcancelled[i] || !freq[i]) return;
+	fcancelled[i] = 1; f_ncancel++;
+	ev_put("cancel", i, 0);
+	evhttp_cancel_request(freq[i]);
+}
+static int f_all_done(void) { int i, n = 0; for (i = 0; i < f_n; i++) n += (fdone[i] || fcancelled[i]); return n >= f_n; }
+
+static void client_fault_run(FILE *f, jval *sc)
+{
+	jval *reqs = j_get(sc, "reqs"), *conns = j_get(sc, "conns"), *cancel = j_get(sc, "cancel");
+	char *ebuf = NULL; size_t elen = 0;
+	int cidx = -1, got = 0, sent = 0, i, dead_fd = -1, port = cli_port;
+	int cancel_i = cancel ? (int)j_int(cancel, "i", -1) : -1;
+	const char *cancel_when = cancel ? j_str(cancel, "when", "start") : "";
+	struct timeval tv; double t0;
+	long ms = (long)j_int(sc, "timeout_ms", 80);
+	evlog = open_memstream(&ebuf, &elen); nev = 0; ncb = 0; hang = 0;
+	memset(freq, 0, sizeof(freq)); memset(fdone, 0, sizeof(fdone)); memset(fcancelled, 0, sizeof(fcancelled));
+	f_n = reqs ? (int)reqs->n : 0; if (f_n > 8) f_n = 8; f_ncancel = 0;
+	cfd = -1;
+	if (j_int(sc, "deadport", 0)) { /* a bound socket that does not listen: every connect is refused */
+		struct sockaddr_in sin; socklen_t sl = sizeof(sin);
+		dead_fd = socket(AF_INET, SOCK_STREAM, 0);
+		memset(&sin, 0, sizeof(sin)); sin.sin_family = AF_INET; sin.sin_addr.s_addr = htonl(INADDR_LOOPBACK);
+		bind(dead_fd, (struct sockaddr *)&sin, sizeof(sin)); getsockname(dead_fd, (struct sockaddr *)&sin, &sl);
+		port = ntohs(sin.sin_port);
+	}
+	evcon = evhttp_connection_base_new(base, NULL, "127.0.0.1", (ev_uint16_t)port);
+	tv.tv_sec = ms / 1000; tv.tv_usec = (ms % 1000) * 1000;
+	evhttp_connection_set_timeout_tv(evcon, &tv);
+	tv.tv_sec = 0; tv.tv_usec = 5000;
+	evhttp_connection_set_initial_retry_tv(evcon, &tv);
+	evhttp_connection_set_retries(evcon, (int)j_int(sc, "retries", 0));
+	for (i = 0; i < f_n; i++) {
+		const char *m = reqs->items[i]->str; char uri[16]; int rc;
+		enum evhttp_cmd_type t = !strcmp(m, "HEAD") ? EVHTTP_REQ_HEAD : !strcmp(m, "POST") ? EVHTTP_REQ_POST : EVHTTP_REQ_GET;
+		freq[i] = evhttp_request_new(f_done_cb, (void *)(intptr_t)i);
+		if (j_int(sc, "errcb", 0)) evhttp_request_set_error_cb(freq[i], f_err_cb);
+		evhttp_add_header(evhttp_request_get_output_headers(freq[i]), "Host", "h");
+		if (t == EVHTTP_REQ_POST) evbuffer_add(evhttp_request_get_output_buffer(freq[i]), "pp", 2);
+		snprintf(uri, sizeof(uri), "/r%d", i);
+		rc = evhttp_make_request(evcon, freq[i], t, uri);
+		ev_put("make", i, rc);
+	}
+	if (!strcmp(cancel_when, "start")) f_cancel(cancel_i);
+	t0 = now_s();
+	while (!f_all_done()) {
+		int fd, progressed = 0; char buf[4096]; ssize_t r;
+		event_base_loop(base, EVLOOP_NONBLOCK);
+		while ((fd = accept(lfd, NULL, NULL)) >= 0) {
+			progressed = 1;
+			if (cfd < 0) { cfd = fd; set_nonblock(cfd); cidx++; got = 0; sent = 0; cli_eof = 0; }
+			else { int keep = cfd; cfd = fd; raw_close_abort(); cfd = keep; }   /* never two at once: reset the newcomer */
+		}
+		if (cfd >= 0) {
+			while ((r = read(cfd, buf, sizeof(buf))) > 0) { got += (int)r; progressed = 1; }
+			if (r == 0 || (r < 0 && errno != EAGAIN && errno != EWOULDBLOCK && errno != EINTR)) { close(cfd); cfd = -1; progressed = 1; }
+		}
+		if (cfd >= 0 && got > 0 && !sent) {
+			jval *c = (conns && cidx < (int)conns->n) ? conns->items[cidx] : NULL;
+			sent = 1; progressed = 1;
+			if (!c) raw_close_abort();
+			else {
+				jval *b = j_get(c, "bytes"); const char *fk = j_str(c, "fault", "none");
+				size_t at = (size_t)j_int(c, "at", 1 << 30), n = b ? b->slen : 0;
+				if (!strcmp(fk, "none") || at > n) at = n;
+				cli_eof = 0; cli_rst = 0;
+				if (at) raw_write(b->str, at);
+				if (cidx == 0 && !strcmp(cancel_when, "mid")) { event_base_loop(base, EVLOOP_NONBLOCK); f_cancel(cancel_i); }
+				if (!strcmp(fk, "rst")) raw_close_abort();
+				else if (!strcmp(fk, "eof") || (!strcmp(fk, "none") && j_int(c, "close_after", 0))) shutdown(cfd, SHUT_WR);
+			}
+		}
+		if (!progressed) usleep(200);
+		if (now_s() - t0 > 15.0) { hang = 1; break; }
+	}
+	for (i = 0; i < 5; i++) event_base_loop(base, EVLOOP_NONBLOCK);
+	ev_put("end", 0, 0);
+	/* teardown */
+	if (cfd >= 0) raw_close_abort();
+	for (i = 0; i < 5; i++) { int fd; event_base_loop(base, EVLOOP_NONBLOCK); while ((fd = accept(lfd, NULL, NULL)) >= 0) { cfd = fd; raw_close_abort(); } }
+	evhttp_connection_free(evcon); evcon = NULL; cur_bev = NULL;
+	for (i = 0; i < 5; i++) { int fd; event_base_loop(base, EVLOOP_NONBLOCK); while ((fd = accept(lfd, NULL, NULL)) >= 0) { cfd = fd; raw_close_abort(); } }
+	if (dead_fd >= 0) close(dead_fd);
+	fflush(evlog);
+	fprintf(f, "{\"ev\":[%.*s],\"late\":%d,\"hang\":%d}", (int)elen, ebuf ? ebuf : "", 0, hang);
+	fclose(evlog); free(ebuf); evlog = NULL;
+}
+
 /* ---- scenario */
 struct obs { char *s; size_t n; int *idx; int nidx; };
 
@@ -545,6 +657,7 @@ static void run_scenario(jval *sc, FILE *out)
 	struct obs *obs = NULL; int nobs = 0;
 	size_t i; int k;
 	hang = 0; scen_maxbuf = 0;
+	if (!strcmp(mode, "clientfault")) { client_fault_run(out, sc); fputc('\n', out); return; }
 	if (!bytes || bytes->t != J_STR || !segs) { fprintf(out, "{\"err\":\"bad scenario\"}\n"); return; }
 	reply_spec = j_get(sc, "reply"); route_spec = j_get(sc, "route");
 	if (!strcmp(mode, "server") && route_spec) route_build(route_spec);
